@@ -75,7 +75,7 @@ def inst_env(ctx, inst):
             env[p] = F.const(v.v)
         elif v.kind in ("tuple", "list") and all(e.kind == "class" for e in v.v):
             if p == "match_name_classes":
-                env[p] = frozenset([("clsset", frozenset(e.v for e in v.v))]) if v.v else F.FALSY
+                env[p] = frozenset([("clsset", frozenset(e.v for e in v.v))])
             # subclasses list: not needed as a value
     if "match_name_classes" in inst.args and inst.args["match_name_classes"].kind == "class":
         env["match_name_classes"] = frozenset([("clsset", frozenset([inst.args["match_name_classes"].v]))])
@@ -154,6 +154,59 @@ class BlockClient(F.Client):
             keys |= set(self.universe)
         return F.inst_val(keys, or_none=True)
 
+    def clslist(self, node, st):
+        """Set of class keys denoted by a list/tuple-of-classes expression, or None."""
+        if isinstance(node, (ast.List, ast.Tuple)):
+            out = set()
+            for e in node.elts:
+                r = self.clslist(e, st)
+                if r is None:
+                    return None
+                out |= r
+            return out
+        if isinstance(node, ast.BinOp) and isinstance(node.op, ast.Add):
+            a, b = self.clslist(node.left, st), self.clslist(node.right, st)
+            if a is None or b is None:
+                return None
+            return a | b
+        if isinstance(node, ast.Call) and A.dotted(node.func) in ("tuple", "list") and len(node.args) == 1:
+            return self.clslist(node.args[0], st)
+        if isinstance(node, ast.Name):
+            v = st.get(node.id)
+            if v and all(a[0] == "cls" for a in v):
+                return {a[1] for a in v}
+            if v and all(a[0] == "clsset" for a in v):
+                out = set()
+                for a in v:
+                    out |= set(a[1])
+                return out
+            return None
+        if isinstance(node, ast.Subscript) and isinstance(node.value, ast.Attribute) and node.value.attr == "subclasses":
+            # X.subclasses[X.__name__]: the registered alternatives of X (either standard)
+            base = self.clslist(node.value.value, st) if isinstance(node.value.value, ast.Name) else None
+            idx = node.slice
+            if base and isinstance(idx, ast.Attribute) and idx.attr == "__name__" and A.text(idx.value) == A.text(node.value.value):
+                out = set()
+                for k in base:
+                    nm = k.split(":")[1]
+                    for std in ("f2003", "f2008"):
+                        out |= set(self.m.alternatives(std, nm))
+                return out
+            return None
+        d = A.dotted(node)
+        if d and d.split(".")[0] in ("di", "DynamicImport") and len(d.split(".")) == 2:
+            ent = self.m.snap["di"].get(d.split(".")[1])
+            if ent and ent["kind"] == "class":
+                return {ent["key"]}
+        return None
+
+    def expr_value(self, node, st):
+        if isinstance(node, ast.Call) and A.dotted(node.func) == "tuple":
+            r = self.clslist(node, st)
+            if r is not None:
+                return frozenset([("clsset", frozenset(r))])
+        return None
+
     # -- Client interface --------------------------------------------------
     def call_value(self, call, st):
         fn = call.func
@@ -226,7 +279,7 @@ class BlockClient(F.Client):
 # ---------------------------------------------------------------------------------------------
 class ScopeClient(BlockClient):
     def __init__(self, ctx, finfo, inst=None, guard="table_name", extra_track=()):
-        track = {"startcls", "endcls", "obj", guard, "$scope", "$table", "result", "content",
+        track = {"startcls", "endcls", "endcls_all", "obj", guard, "$scope", "$table", "result", "content",
                  "match_labels", "match_names", "enable_do_label_construct_hook", "match_name_classes"} | set(extra_track)
         BlockClient.__init__(self, ctx, finfo, inst, track=track)
         self.guard = guard
@@ -336,7 +389,7 @@ def run_scope(ctx, finfo, inst, rule, label, guard="table_name", init_extra=None
 # ---------------------------------------------------------------------------------------------
 class NamesClient(BlockClient):
     def __init__(self, ctx, finfo, inst):
-        track = {"startcls", "endcls", "obj", "match_labels", "match_names", "strict_match_names", "content",
+        track = {"startcls", "endcls", "endcls_all", "obj", "match_labels", "match_names", "strict_match_names", "content",
                  "enable_do_label_construct_hook", "match_name_classes", "start_name", "end_name",
                  "found_end", "had_match", "strict_order", "enable_if_construct_hook", "enable_where_construct_hook"}
         BlockClient.__init__(self, ctx, finfo, inst, track=track, names=True)
@@ -478,7 +531,7 @@ class ConsumeClient(BlockClient):
     {empty, nonempty, restored}."""
 
     def __init__(self, ctx, finfo, inst=None, content="content", objvar="obj", extra_track=()):
-        track = {"startcls", "endcls", "obj", "cls", "$obj", "$content", "match_labels", "match_names", content,
+        track = {"startcls", "endcls", "endcls_all", "obj", "cls", "$obj", "$content", "match_labels", "match_names", content,
                  "enable_do_label_construct_hook", "match_name_classes", objvar} | set(extra_track)
         BlockClient.__init__(self, ctx, finfo, inst, track=track)
         self.content = content
@@ -557,8 +610,8 @@ class ConsumeFlow(F.Flow):
             out.normal = new
         return out
 
-    def split(self, test, st):
-        a, b = F.Flow.split(self, test, st)
+    def split(self, test, st, out=None):
+        a, b = F.Flow.split(self, test, st, out)
         # an object known to be None is not held
         def fix(sts):
             res = set()
@@ -640,7 +693,7 @@ class ListClient(BlockClient):
 
 
 class ListFlow(F.Flow):
-    def split(self, test, st):
+    def split(self, test, st, out=None):
         if isinstance(test, ast.Attribute) and A.dotted(test) in self.c.attr_vars:
             name = self.c.attr_vars[A.dotted(test)]
             val = st.get(name)
@@ -651,7 +704,7 @@ class ListFlow(F.Flow):
             if f:
                 res_f.add(st.set(name, F.FALSY))
             return res_t, res_f
-        return F.Flow.split(self, test, st)
+        return F.Flow.split(self, test, st, out)
 
     def stmt(self, s, states, cur_exc):
         c = self.c
